@@ -1,6 +1,8 @@
 package govc
 
 import (
+	"go/token"
+	"go/constant"
 	"fmt"
 	"sort"
 	"go/types"
@@ -560,6 +562,33 @@ func (env *cenv) call(e *CExpr) cval {
 		}
 		_, t := env.sortOfTypeName(args[1].Name)
 		return env.boolv(fmt.Sprintf("(= (itag %s) %d)", a.term, g.eng.TagOf(t)))
+	case "ratEq":
+		// ratEq(C, num, den): the (possibly floating-point) Go constant C equals num/den exactly (decided with go/constant)
+		var obj types.Object
+		switch args[0].Op {
+		case "id":
+			if env.pkg != nil {
+				obj = env.pkg.Scope().Lookup(args[0].Name)
+			}
+		case "sel":
+			if p := env.importedPkg(args[0].Args[0].Name); p != nil {
+				obj = p.Scope().Lookup(args[0].Name)
+			}
+		}
+		co, ok := obj.(*types.Const)
+		if !ok {
+			env.fail("ratEq: %s is not a constant", args[0])
+		}
+		num, ok1 := new(big.Int).SetString(args[1].Name, 0)
+		den, ok2 := new(big.Int).SetString(args[2].Name, 0)
+		if !ok1 || !ok2 || den.Sign() == 0 {
+			env.fail("ratEq: bad fraction")
+		}
+		want := constant.BinaryOp(constant.ToFloat(constant.Make(num)), token.QUO, constant.ToFloat(constant.Make(den)))
+		if constant.Compare(constant.ToFloat(co.Val()), token.EQL, want) {
+			return env.boolv("true")
+		}
+		return env.boolv("false")
 	case "quo":
 		// quo(a, b): Go integer division (truncated toward zero)
 		a := env.eval(args[0])
